@@ -56,7 +56,13 @@ func init() {
 }
 
 func genDuration(r *rand.Rand, allowZero bool) time.Duration {
-	switch r.IntN(9) {
+	switch r.IntN(10) {
+	case 9:
+		// very short stages (steep slopes: many targets per nanosecond)
+		if r.IntN(2) == 0 {
+			return time.Duration(1+r.IntN(5000)) * time.Microsecond
+		}
+		return time.Duration(1 + r.IntN(2000))
 	case 0:
 		if allowZero {
 			return 0
